@@ -149,6 +149,49 @@ def r4_stored_tree(ctx, sym, mod, fn, g, site):
               "later tools analyse a different tree")
 
 
+def r4b_filename_with_code(ctx, sym, mod, fn, g, site):
+    code_defaults = g.nodes_where(lambda n: isinstance(n.ast, ast.Assign) and n.kind == 'stmt'
+                                  and norm(n.ast.targets[0]) == 'code' and 'main_code' in norm(n.ast.value))
+    file_defaults = g.nodes_where(lambda n: isinstance(n.ast, ast.Assign) and n.kind == 'stmt'
+                                  and norm(n.ast.targets[0]) == 'filename' and 'main_file' in norm(n.ast.value))
+    ok = bool(code_defaults) and bool(file_defaults) and all(
+        site.id not in g.successors_avoiding(c, file_defaults) for c in code_defaults)
+    ctx.check(ok, 'R6', 'verify:filename-defaulted-with-code', mod, code_defaults[0].ast if code_defaults else fn,
+              "when the code is defaulted from the submission there is a path to ast.parse on which the filename is "
+              "not the submission's main file (the parameter default 'answer.py' is kept), so line offsets - which are "
+              "keyed by the real filename - are not found",
+              "a main file called student.py, sections active, syntax error in section 2: the reported line is "
+              "section-relative")
+
+
+def r7_line_indexing(ctx, sym):
+    ctx.rule('R7', "no unguarded indexing of a list of source lines by the line CPython reports (CPython counts lone "
+                   "CR and form feed differently from str.split('\\n')): a subscript by `line` in syntax_error.__init__ "
+                   "needs a length guard or a try")
+    fmod = ctx.repo.module(SFEED)
+    init = fmod.func('syntax_error.__init__')
+    n = 0
+    for sub in ast.walk(init):
+        if isinstance(sub, ast.Subscript) and isinstance(sub.ctx, ast.Load) and \
+                any(isinstance(x, ast.Name) and x.id == 'line' for x in ast.walk(sub.slice)):
+            n += 1
+            guarded = False
+            child = sub
+            for a in ancestors(sub):
+                if isinstance(a, ast.If) and 'len(' in norm(a.test) and 'line' in norm(a.test):
+                    guarded = True
+                if isinstance(a, ast.Try) and child in a.body:
+                    guarded = True
+                if isinstance(a, ast.IfExp) and 'len(' in norm(a.test):
+                    guarded = True
+                child = a
+            ctx.check(guarded, 'R7', 'syntax_error.__init__:%s' % norm(sub), fmod, sub,
+                      "`%s` indexes the split source by CPython's line number without a bounds check" % norm(sub),
+                      "verify() on 'a = 1\\rb = (\\r' (lone CR line endings): CPython reports line 3, the text has one "
+                      "LF-separated line, IndexError leaves verify()")
+    ctx.ok('R7', 'line-indexing-sweep', sample={'subscripts_by_line': n}, nontrivial=False)
+
+
 def r5_blank(ctx, sym, mod, fn, g):
     ctx.rule('R5', "blank_source is constructed exactly under `code.strip() == ''`, outside any handler")
     bs = [c for c in calls(fn) if call_name(c) == 'blank_source']
@@ -255,6 +298,8 @@ def run(ctx):
     r4_stored_tree(ctx, sym, mod, fn, g, site)
     r5_blank(ctx, sym, mod, fn, g)
     r6_r2_line(ctx, sym)
+    r4b_filename_with_code(ctx, sym, mod, fn, g, site)
+    r7_line_indexing(ctx, sym)
     ctx.assume("ast.parse(str) fails only with SyntaxError, ValueError, RecursionError or MemoryError (CPython docs "
                "and observed on 3.12); agreement of the reported line with CPython's for every corrupted text beyond "
                "'it is e.lineno plus the section offset' is not decided")
